@@ -328,9 +328,10 @@ type StackCfg struct {
 	DeadlineMs  int    `json:"deadline_ms,omitempty"`
 	TimeoutNs   int64  `json:"timeout_ns,omitempty"`   // overrides TimeoutMs when non-zero
 	DeadlineNs  int64  `json:"deadline_ns,omitempty"`  // overrides DeadlineMs when non-zero
-	DeadlineFar int    `json:"deadline_far,omitempty"` // deadline limiter: a deadline far in the future: 1 = t0 + MaxInt64 ns, 2 = year 2500, 3 = year 9999 (overrides the others)
+	DeadlineFar int    `json:"deadline_far,omitempty"` // deadline limiter: a deadline far in the future: 1 = t0 + MaxInt64 ns, 2 = year 2500, 3 = year 9999; 4 = the zero time.Time, i.e. long past (overrides the others)
 	WinNs       int64  `json:"win_ns,omitempty"`       // DefaultLimiter window time (min=max); default 1 ms
 	SlowUs      int    `json:"slow_us,omitempty"`      // real-clock runs only: the delegate sleeps that long in every third Acquire
+	StratInit   int    `json:"strat_init,omitempty"`   // simple / precise: the limit the strategy object itself is constructed with when it differs from Limit (the limiter must bring it in line)
 	Inject      bool   `json:"inject,omitempty"`       // wrap the delegate with schedule points
 	Defaults    bool   `json:"defaults,omitempty"`     // use the ...WithDefaults constructor (queue kinds)
 }
@@ -426,10 +427,10 @@ func buildStack(cfg StackCfg, lim core.Limit, sc *sched, t0 time.Time) (*stack, 
 	var st core.Strategy
 	switch cfg.Strategy {
 	case "", "simple":
-		s.simple = strategy.NewSimpleStrategyWithMetricRegistry(cfg.Limit, s.reg)
+		s.simple = strategy.NewSimpleStrategyWithMetricRegistry(cfg.stratInit(), s.reg)
 		st = s.simple
 	case "precise":
-		s.precise = strategy.NewPreciseStrategyWithMetricRegistry(cfg.Limit, s.reg)
+		s.precise = strategy.NewPreciseStrategyWithMetricRegistry(cfg.stratInit(), s.reg)
 		st = s.precise
 	case "lookup":
 		s.binNames = []string{"a", "b"}
@@ -494,6 +495,8 @@ func buildStack(cfg StackCfg, lim core.Limit, sc *sched, t0 time.Time) (*stack, 
 		deadline = time.Date(2500, 1, 1, 0, 0, 0, 0, time.UTC)
 	case 3:
 		deadline = time.Date(9999, 12, 31, 23, 59, 59, 0, time.UTC)
+	case 4:
+		deadline = time.Time{} // the zero instant (year 1): long past
 	}
 	qcfg := func(o limiter.QueueOrdering) limiter.QueueLimiterConfig {
 		return limiter.QueueLimiterConfig{Ordering: o, MaxBacklogSize: cfg.Backlog, MaxBacklogTimeout: timeout,
@@ -542,6 +545,13 @@ func buildStack(cfg StackCfg, lim core.Limit, sc *sched, t0 time.Time) (*stack, 
 		return nil, fmt.Errorf("kind %q", cfg.Kind)
 	}
 	return s, nil
+}
+
+func (c StackCfg) stratInit() int {
+	if c.StratInit != 0 {
+		return c.StratInit
+	}
+	return c.Limit
 }
 
 // isQueue reports whether the stack's outer limiter is a queue limiter (backlog semantics).
